@@ -116,8 +116,11 @@ def parseQuery (j : Json) : R Spec.Query := do
 
 def netNames : List String := ["tcp", "tcp6", "udp", "udp6", "unix"]
 
+/-- the model with the ONE inode dict threaded through all the tables of the query, lookups as extracted from the source
+    (`Cfg.inetLookup`, `unixLookup`, `allInodesDefault`, `procInodesDefault`); equal to `netConnectionsE` for the code as
+    it is (`C11_shared_map_frame`) -/
 def run1 (c : Cfg) (fs : ProcFsE) (q : Spec.Query) : Except Exc (List Row) :=
-  netConnectionsE c fs q.kind q.pid
+  netConnectionsES c fs q.kind q.pid
 
 def optBool (j : Json) (k : String) (dflt : Bool) : R Bool :=
   match j.getObjVal? k with
